@@ -131,6 +131,7 @@ def lean_stage(prop, tier, log):
             st.live_error = str(e)
         rc, out = run_cmd(['lake', 'build', 'dfdriver'], cwd=LEAN_DIR)
         st.driver_ok = (rc == 0 and os.path.exists(DRIVER))
+        DRIVER_STATE['ok'] = st.driver_ok
         if not st.driver_ok:
             st.build_log += out[-4000:]
         targets = ['DfModel', 'Generated'] + modules
@@ -194,12 +195,16 @@ def first_error(out, name):
 # the model driver (line protocol)
 # ----------------------------------------------------------------------------------
 
+DRIVER_STATE = {'ok': True}
+
+
 class Model:
     def __init__(self):
         self.calls = 0
 
     def available(self):
-        return os.path.exists(DRIVER)
+        # a driver that no longer builds from the current sources is not used (a stale binary proves nothing)
+        return DRIVER_STATE['ok'] and os.path.exists(DRIVER)
 
     def run(self, ops):
         """ops: list of dict → list of dict (one JSON object per line in, one per line out)."""
